@@ -61,7 +61,7 @@ func vc_C10_evaluate_writes3d() {
 	n := vfSharedWrites()
 	vfTrackWrites(false)
 	vfReach("evaluate3d")
-	vfAssert(n == 0, "Evaluate of a 3-D shape writes only memory allocated inside the call")
+	vfAssert(n == 0, "Evaluate of a 3-D shape writes only memory allocated inside the call (and reads nothing unlocked that a call writes under a lock)")
 }
 
 func vc_C10_evaluate_writes2d() {
@@ -73,7 +73,7 @@ func vc_C10_evaluate_writes2d() {
 	n := vfSharedWrites()
 	vfTrackWrites(false)
 	vfReach("evaluate2d")
-	vfAssert(n == 0, "Evaluate of a 2-D shape writes only memory allocated inside the call")
+	vfAssert(n == 0, "Evaluate of a 2-D shape writes only memory allocated inside the call (and reads nothing unlocked that a call writes under a lock)")
 }
 
 // interleavings at lock boundaries: two goroutines evaluate a cached shape at
